@@ -190,6 +190,9 @@ def grouping(ctx) -> None:
                            and isinstance(_gval(m), ast.Subscript) and is_name(_gval(m).slice, n.ast.target.id) and not fv.controlling(m.id, within=lbody)]
                 if len(unpacks) == 1 and isinstance(arg, ast.Tuple) and len(arg.elts) == len(unpacks[0].ast.targets[0].elts):
                     ok_order = True
+                cu = _component_unpack(fv, n, lbody)
+                if cu is not None and isinstance(arg, ast.Tuple) and len(arg.elts) == 3:
+                    ok_order = True
     if not ok_order and not any_sort and any(isinstance(x, ast.Call) and call_fname(x) in ("sorted", "sort", "argsort", "lexsort") for n in fv.cfg.nodes if n.ast is not None for x in own_walk(n.ast)):
         ok_order = None if not any(isinstance(n.ast, ast.Assign) and isinstance(n.ast.value, ast.ListComp) for n in fv.cfg.nodes if n.kind == "stmt") else ok_order
     ctx.rep.check(ok_order, rule.replace("group-integrity", "order"), f"{f.qualname}/group-order", "groups are emitted for sorted(keys), every key once",
@@ -262,6 +265,23 @@ def _regex_key(fv, f, val: ast.AST):
     return wterm, None, f"group `{gsel}` not found at the top level of `{pat_c.value}`"
 
 
+def _component_unpack(fv, lp, lb):
+    """`a = G[key][0]; b = G[key][1]; c = G[key][2]` (unconditional, key = the loop variable) - the component-wise spelling of
+    `a, b, c = G[key]` that an expanded helper call `h(.., *G[key])` leaves behind.  -> (G, [a, b, c]) or None"""
+    found = {}
+    g = None
+    for m in (fv.cfg.nodes[i] for i in sorted(lb)):
+        if m.kind == "stmt" and isinstance(m.ast, ast.Assign) and len(m.ast.targets) == 1 and isinstance(m.ast.targets[0], ast.Name) and isinstance(m.ast.value, ast.Subscript) \
+                and isinstance(m.ast.value.slice, ast.Constant) and isinstance(m.ast.value.value, ast.Subscript) and isinstance(m.ast.value.value.value, ast.Name) \
+                and isinstance(lp.ast.target, ast.Name) and is_name(m.ast.value.value.slice, lp.ast.target.id) and not fv.controlling(m.id, within=lb):
+            if g is None or g == m.ast.value.value.value.id:
+                g = m.ast.value.value.value.id
+                found.setdefault(m.ast.value.slice.value, m.ast.targets[0].id)
+    if g is not None and sorted(found) == [0, 1, 2]:
+        return g, [found[0], found[1], found[2]]
+    return None
+
+
 def sorting(ctx) -> None:
     rule = "C18.one-permutation"
     f = ctx.prog.require_func("partition_by_column", rule)
@@ -286,6 +306,10 @@ def sorting(ctx) -> None:
                     gval = fv.def_expr(m.ast.value, m.id)[0] if isinstance(m.ast.value, ast.Name) else m.ast.value
                     if isinstance(gval, ast.Subscript) and isinstance(gval.value, ast.Name) and is_name(gval.slice, lp.ast.target.id) and not fv.controlling(m.id, within=lb):
                         target = (lp, gval.value.id, m.ast.targets[0])
+            if target is None:
+                cu = _component_unpack(fv, lp, lb)
+                if cu is not None:
+                    target = (lp, cu[0], ast.Tuple(elts=[ast.Name(id=x, ctx=ast.Store()) for x in cu[1]], ctx=ast.Store()))
     if target is None:
         sorts = any(isinstance(x, ast.Call) and call_fname(x) in ("sorted", "sort", "argsort", "lexsort") for n in fv.cfg.nodes if n.ast is not None for x in own_walk(n.ast))
         if sorts and any(n.kind == "for" for n in fv.cfg.nodes):
